@@ -428,7 +428,12 @@ func c17PlusComments(rt *rapid.T) *c17Case {
 func TestC17(t *testing.T) {
 	c := coll("C17")
 	checkN(t, func(rt *rapid.T) {
-		if fam := rapid.IntRange(0, 15).Draw(rt, "family"); fam <= 2 {
+		fam := rapid.IntRange(0, 18).Draw(rt, "family")
+		if fam >= 16 {
+			c17iRun(rt)
+			return
+		}
+		if fam <= 2 {
 			cs := c17Runs(rt)
 			if fam == 2 {
 				cs = c17PlusComments(rt)
@@ -519,10 +524,23 @@ func TestC17(t *testing.T) {
 }
 
 func TestReplayC17(t *testing.T) {
-	var cs c17Case
-	if !loadReplay(t, "C17", &cs) {
+	var probe struct {
+		Mode string `json:"mode"`
+	}
+	if !loadReplay(t, "C17", &probe) {
 		return
 	}
+	if probe.Mode == "import-section" {
+		var ic c17iCase
+		loadReplay(t, "C17", &ic)
+		found, _ := evalC17i(&ic)
+		for _, f := range found {
+			violate(t, "C17", f.Sig, f.Msg, &ic)
+		}
+		return
+	}
+	var cs c17Case
+	loadReplay(t, "C17", &cs)
 	sig, msg, _, _ := evalC17(&cs)
 	if sig != "" {
 		violate(t, "C17", sig, msg, &cs)
